@@ -499,7 +499,7 @@ pub fn run(ctx: &Ctx) -> i32 {
         "exploration",
         "tape -> dsl library in the image of a faithful parser (gen_syntax) -> harness printer (alternative productions from the tape, mild layout) -> parse_program must return the same library (derived ==, plus case-sensitive identifier spellings in visit order). Exhaustive grids: all 225 ordered binary operator pairs x both association shapes, all unary/binary mixes, 225 operator triples x 3 shapes; every POU kind x VAR block class x qualifier x initialiser kind the grammar admits (alone and followed by a neighbour block). Text-first census (for what the AST cannot hold): 3 POU kinds x 14 block headers x 24 declaration forms written as text (exhaustive grid + random multi-POU units); when the combination is derivable from IEC B.1.4.3/B.1.5 and the parser accepts it, every user identifier written must be the span of an Id of the library (nothing dropped). Non-trivial: >= 1 declaration and >= 3 distinct grammar productions exercised; distinct by hash of the program text.",
     );
-    let mut gates = ctx.gates_for("C01");
+    let gates = ctx.gates_for("C01");
     run_grid(&mut rep, &gates);
     run_decl_grid(&mut rep, &gates);
     run_text_grid(&mut rep, &gates, ctx);
